@@ -210,10 +210,29 @@ CLASSES = ["Term", "Tag", "Feature", "Note", "SoundEvent", "SoundEventAnnotation
 FLOATS = [0.0, -0.0, 1.0, 0.3, 0.1 + 0.2, 0.30000000000000004, 1e-12, 1 + 1e-12, 2.5, 1e300]
 
 
+TERM_EXTRA = {
+    "definition": ["d", "another definition"], "uri": [None, "http://rs.tdwg.org/dwc/terms/scientificName", "http://example.org/other"],
+    "type_of_term": ["property", "class"], "comment": [None, "c"], "see": [None, "http://example.org/see"], "subproperty_of": [None, "p"],
+    "subclass_of": [None, "q"], "domain": [None, "dom"], "domain_includes": [None, "inc"],
+}
+
+
+@st.composite
+def term_extras(draw):
+    """Optional Term fields for both sides: side b repeats side a except for 0-2 fields (objects that agree on most fields are
+    the ones an equality shortcut - same uri, same name - would wrongly identify)"""
+    a = {k: draw(st.sampled_from(v)) for k, v in TERM_EXTRA.items()} if draw(st.booleans()) else {"definition": "d"}
+    b = dict(a)
+    for k in draw(st.lists(st.sampled_from(sorted(TERM_EXTRA)), min_size=0, max_size=2, unique=True)):
+        b[k] = draw(st.sampled_from(TERM_EXTRA[k]))
+    return [a, b]
+
+
 @st.composite
 def hash_case(draw):
     cls = draw(st.sampled_from(CLASSES))
     return {
+        "term_extra": draw(term_extras()),
         "cls": cls,
         "uuid_a": draw(st.integers(1, 3)),
         "uuid_b": draw(st.integers(1, 3)),
@@ -235,7 +254,10 @@ def _make(spec, side):
     s = "_" + side
     cls = spec["cls"]
     uid = str(uuidlib.UUID(int=spec["uuid" + s]))
-    term = data.Term(name=spec["name" + s], label=spec["label" + s], definition="d")
+    extra = dict((spec.get("term_extra") or [{"definition": "d"}, {"definition": "d"}])[0 if side == "a" else 1])
+    if not set(extra) <= set(TERM_EXTRA) or "definition" not in extra:
+        raise ValueError("malformed spec")
+    term = data.Term(name=spec["name" + s], label=spec["label" + s], **{k: v for k, v in extra.items() if v is not None})
     f = spec["f" + side[-1]]
     if side == "b" and spec["int_b"] and float(int(f)) == f and abs(f) < 1e9:
         f = int(f)
@@ -275,6 +297,8 @@ def check_hash(spec, ctx):
             if k.endswith("_b") and k != "int_b":
                 s2[k] = s2[k[:-2] + "_a"]
         s2["fb"] = s2["fa"]
+        if s2.get("term_extra"):
+            s2["term_extra"] = [s2["term_extra"][0], s2["term_extra"][0]]
         b = _make(s2, "b")
     elif v == "copy_update":
         # the source object is hashed (used in a set) first, then a copy with updated fields is derived from it;
